@@ -314,3 +314,226 @@ def boundary(vk, cfg):
     vk.real(felupe.Boundary.apply_mask)
     vk.real(felupe.Boundary.update)
     X.paired(vk, _boundary, cfg)
+
+
+# ------------------------------------------------------------------------------------------------
+# dof tools against the Boundary contract: boundaries are stubs honouring the postcondition proved above
+def _stub_boundary(E, name, f, kind="dofs", kept=None):
+    """kind 'dofs': arbitrary strictly increasing dof set (dof-based mask); 'rows': arbitrary point set x
+    kept components with dof[j*m+l] = dim*points[j] + kept[l] (point-based mask with skip)"""
+    n, d = f.region.mesh.npoints, f.dim
+    b = SimpleNamespace(field=f, dim=d, name=name, value=0.0, kind=kind)
+    if kind == "dofs":
+        b.dof = E.sortedset("dof_" + name, n * d)
+        b.points = E.derived_set("pts_" + name, lambda p: E.Or(*[E.occurs(b.dof, d * p + i) for i in range(d)]), n)
+        b.kept = list(range(d))
+    else:
+        b.kept = list(range(d)) if kept is None else list(kept)
+        mk = len(b.kept)
+        b.points = E.sortedset("pts_" + name, n)
+        P = E.length(b.points)
+        b.dof = E.derived_set("dof_" + name, lambda x: E.And(E.occurs(b.points, E.div(x, d)), E.Or(*[E.eq(E.mod(x, d), i) for i in b.kept])), n * d, length=P * mk)
+        if mk:
+            E.assume_forall([("r", P * mk)], lambda r: E.eq(E.at(b.dof, r), d * E.at(b.points, E.div(r, mk)) + E.pick(b.kept, E.mod(r, mk))))
+    return b
+
+
+def _increasing(E, tag, a):
+    E.forall(tag, [("j", (1, E.length(a)))], lambda j: E.at(a, j - 1) < E.at(a, j))
+
+
+def _dof01(E, cfg):
+    fdim, mdim, nb, pwc = cfg["fdim"], cfg["mdim"], cfg["nb"], cfg["pwc"]
+    E.scope()
+    m = F.mesh(E, "m", 4, mdim=mdim, pwc=pwc)
+    f = F.field(E, m, fdim)
+    n = m.npoints
+    bounds = {f"b{k}": _stub_boundary(E, f"b{k}", f, "rows" if k == 1 else "dofs", kept=[0] if k == 1 else None) for k in range(nb)}
+    with E.run(DT):
+        dof0 = DT.get_dof0(f, bounds)
+    inb = lambda v: E.Or(*[E.occurs(b.dof, v) for b in bounds.values()])  # noqa: E731
+    missing = lambda v: E.And(v >= 0, v < E.val(n * fdim), E.occurs(m.points_without_cells, E.div(v, fdim)))  # noqa: E731
+    E.check("dof0/1d", len(dof0.shape) == 1, "")
+    E.forall("dof0/member-iff", [("v", None)], lambda v: E.Iff(E.occurs(dof0, v), E.Or(inb(v), missing(v))))
+    _increasing(E, "dof0/increasing", dof0)
+    E.canary("dof0-misses-points-without-cells" if pwc else "dof0-complement", [("v", None)], lambda v: E.Iff(E.occurs(dof0, v), inb(v) if pwc else E.Not(inb(v))))
+    if pwc:  # the unknowns of a point without cells are dim*p + i with the *field* dimension
+        E.forall("dof0/points-without-cells", [("j", E.length(m.points_without_cells)), ("i", fdim)], lambda j, i: E.occurs(dof0, fdim * E.at(m.points_without_cells, j) + i))
+    # get_dof1 for an arbitrary prescribed set (any result of get_dof0)
+    d0 = E.sortedset("d0", n * fdim)
+    with E.run(DT):
+        dof1 = DT.get_dof1(f, bounds, dof0=d0)
+    E.forall("dof1/member-iff", [("v", None)], lambda v: E.Iff(E.occurs(dof1, v), E.And(v >= 0, v < E.val(n * fdim), E.Not(E.occurs(d0, v)))))
+    _increasing(E, "dof1/increasing", dof1)
+    E.canary("dof1-is-dof0", [("v", None)], lambda v: E.Iff(E.occurs(dof1, v), E.occurs(d0, v)))
+    if not E.sym:
+        E.check("native:dof1/count", len(dof1) + len(d0) == n * fdim, "len(dof0) + len(dof1) == number of unknowns")
+
+
+D01 = [dict(fdim=fd, mdim=md, nb=nb, pwc=pw) for (fd, md) in [(3, 3), (1, 3), (2, 2), (3, 2), (2, 3), (1, 1)] for nb in (1, 2, 3) for pw in (False, True)]
+for c in D01:
+    if c["nb"] == 2 and (c["fdim"], c["mdim"]) not in ((1, 3), (3, 2)):
+        c["tier"] = "thorough"
+
+
+@contract("C08", "dof0-dof1", configs=D01, engine="E3")
+def dof01(vk, cfg):
+    """get_dof0 = sorted(boundary dofs U dim*p+i of points without cells), get_dof1 = complement"""
+    vk.real(DT.get_dof0)
+    vk.real(DT.get_dof1)
+    X.paired(vk, _dof01, cfg)
+
+
+# ------------------------------------------------------------------------------------------------
+def _locate(E, off, tot, v, per_field):
+    """spec helper: per_field(j, local index) of the field whose index range contains v"""
+    nf = len(off)
+    ends = off[1:] + [tot]
+    return E.Or(*[E.And(v >= E.val(off[j]), v < E.val(ends[j]), per_field(j, v - E.val(off[j]))) for j in range(nf)])
+
+
+def _partition(E, cfg):
+    dims, on = cfg["dims"], cfg["on"]  # on: field index of every boundary
+    nf = len(dims)
+    E.scope()
+    meshes, fs = _fields(E, dims, points=True, pwc=cfg.get("pwc", True), mdims=cfg.get("mdims", [3] * nf), values=None)
+    cont = F.container(E, fs)
+    off, tot = F.spec_offsets(fs)
+    bounds = {f"b{k}": _stub_boundary(E, f"b{k}", fs[j], "rows" if k % 2 else "dofs", kept=[dims[j] - 1] if k % 2 else None) for k, j in enumerate(on)}
+    with E.run(DT, DB):
+        dof0, dof1 = DT.partition(cont, bounds)
+    def prescribed(j, x):
+        m = meshes[j]
+        return E.Or(*[E.occurs(b.dof, x) for b in bounds.values() if b.field is fs[j]], E.occurs(m.points_without_cells, E.div(x, dims[j])))
+
+    in0 = lambda v: _locate(E, off, tot, v, prescribed)  # noqa: E731
+    inrange = lambda v: E.And(v >= 0, v < E.val(tot))  # noqa: E731
+    E.forall("dof0/member-iff", [("v", None)], lambda v: E.Iff(E.occurs(dof0, v), E.And(inrange(v), in0(v))))
+    E.forall("dof1/member-iff", [("v", None)], lambda v: E.Iff(E.occurs(dof1, v), E.And(inrange(v), E.Not(in0(v)))))
+    E.forall("disjoint", [("v", None)], lambda v: E.Not(E.And(E.occurs(dof0, v), E.occurs(dof1, v))))
+    E.forall("covering", [("v", tot)], lambda v: E.Or(E.occurs(dof0, v), E.occurs(dof1, v)))
+    _increasing(E, "dof0/increasing", dof0)
+    _increasing(E, "dof1/increasing", dof1)
+    if nf > 1:
+        j = nf - 1
+        E.canary("last-field-without-offset", [("v", None)], lambda v: E.Iff(E.occurs(dof0, v), E.And(v >= 0, v < E.val(meshes[j].npoints * dims[j]), prescribed(j, v))), given=lambda v: v >= E.val(off[j]))
+    E.canary("dof0-is-dof1", [("v", tot)], lambda v: E.Iff(E.occurs(dof0, v), E.occurs(dof1, v)))
+    if not E.sym:
+        E.check("native:count", len(dof0) + len(dof1) == tot, "len(dof0) + len(dof1) == number of unknowns")
+
+
+PART = [
+    dict(dims=(3,), on=(0,)),
+    dict(dims=(3,), on=(0, 0, 0)),
+    dict(dims=(2,), on=(0, 0), mdims=[2], pwc=False),
+    dict(dims=(2, 1), on=(0, 1), mdims=[2, 2]),
+    dict(dims=(3, 1), on=(0, 0)),  # second field without boundary: partition adds an empty Boundary
+    dict(dims=(3, 1, 1), on=(0, 2, 0)),  # second field without boundary, third with
+    dict(dims=(3, 1, 1), on=(2, 1, 0, 2), tier="thorough"),
+    dict(dims=(1, 2, 3), on=(1, 2), mdims=[3, 3, 3]),
+    dict(dims=(2, 1, 1), on=(0, 1, 2), mdims=[2, 2, 2], tier="thorough"),
+]
+
+
+@contract("C08", "partition", configs=PART, engine="E3")
+def partition(vk, cfg):
+    """partition: per-field prescribed sets shifted by the field offsets; dof0 / dof1 disjoint and covering"""
+    vk.real(DT.partition)
+    vk.real(DT.get_dof0)
+    vk.real(DT.get_dof1)
+    vk.real(felupe.Boundary.__init__)
+    X.paired(vk, _partition, cfg)
+
+
+# ------------------------------------------------------------------------------------------------
+def _apply(E, cfg):
+    dims, spec_b = cfg["dims"], cfg["bounds"]  # bounds: (field index, value kind)
+    nf = len(dims)
+    E.scope()
+    meshes, fs = _fields(E, dims, values="sym")
+    cont = F.container(E, fs)
+    off, tot = F.spec_offsets(fs)
+    old = [f.values for f in fs]
+    bounds, valfun = {}, {}
+    for k, (j, vk_) in enumerate(spec_b):
+        name = f"b{k}"
+        d = dims[j]
+        if vk_ in ("float", "scalar"):
+            b = _stub_boundary(E, name, fs[j], "dofs")
+            b.value = 0.25 * (k + 1) if vk_ == "float" else E.real("val_" + name)
+            valfun[name] = (lambda b: lambda x: E.val(b.value))(b)
+        elif vk_ in ("array", "array2d"):
+            # one value per prescribed dof, listed in the order of b.dof
+            kept = list(range(d)) if vk_ == "array2d" else None
+            b = _stub_boundary(E, name, fs[j], "rows" if vk_ == "array2d" else "dofs", kept=kept)
+            L = E.length(b.dof)
+            V = E.reals("V_" + name, (L,))
+            b.value = V if vk_ == "array" else V.reshape(E.length(b.points), d)
+            valfun[name] = (lambda b, V: lambda x: E.at(V, E.rank(b.dof, x)))(b, V)
+        else:  # broadcast: one value per kept component, the same for every selected point
+            kept = {"bcast": list(range(d)), "bcast-skip": [i for i in range(d) if i != 1] if d > 1 else [0], "bcast-row": list(range(d))}[vk_]
+            b = _stub_boundary(E, name, fs[j], "rows", kept=kept)
+            V = E.reals("V_" + name, (len(kept),))
+            b.value = V.reshape(1, -1) if vk_ == "bcast-row" else V
+            E.assume(E.Not(E.eq(E.val(E.length(b.dof)), len(kept))))  # else the array is taken as "one value per dof" (same result)
+            ci = [kept.index(i) if i in kept else 0 for i in range(d)]
+            valfun[name] = (lambda V, ci, d: lambda x: E.at(V, E.pick(ci, E.mod(x, d))))(V, ci, d)
+        bounds[name] = b
+
+    def u0(j, x):
+        return E.at(old[j], E.div(x, dims[j]), E.mod(x, dims[j]))
+
+    def expected(v):
+        """value of the last boundary containing v, else the current field value"""
+        ends = off[1:] + [tot]
+        r = None
+        for j in range(nf):
+            loc = v - E.val(off[j])
+            rj = u0(j, loc)
+            for name, b in bounds.items():
+                if b.field is fs[j]:
+                    rj = E.If(E.occurs(b.dof, loc), valfun[name](loc), rj)
+            r = rj if r is None else E.If(v >= E.val(off[j]), rj, r)
+        return r
+
+    with E.run(DT):
+        full = DT.apply(cont, bounds)
+    E.check("all/length", _shape_is(full, (tot,)), f"{full.shape}")
+    E.forall("all/value", [("v", tot)], lambda v: E.eq(E.at(full, v), expected(v)))
+    d0 = E.sortedset("dof0", tot)
+    with E.run(DT):
+        ext0 = DT.apply(cont, bounds, dof0=d0)
+    E.check("ext0/length", _shape_is(ext0, (E.length(d0),)), f"{ext0.shape}")
+    E.forall("ext0/value-at-the-position-of-its-unknown", [("k", E.length(d0))], lambda k: E.eq(E.at(ext0, k), expected(E.at(d0, k))))
+    for j in range(nf):  # frame: the field values are not modified
+        E.check(f"frame/field{j}-same-array", fs[j].values is old[j], "apply does not rebind field values")
+    name_last = list(bounds)[-1]
+    bl = bounds[name_last]
+    jl = fs.index(bl.field)
+    E.canary("last-boundary-ignored", [("x", E.length(bl.dof))], lambda x: E.eq(E.at(full, E.val(off[jl]) + E.at(bl.dof, x)), u0(jl, E.at(bl.dof, x))))
+    if jl > 0:
+        E.canary("boundary-applied-without-offset", [("x", E.length(bl.dof))], lambda x: E.eq(E.at(full, E.at(bl.dof, x)), valfun[name_last](E.at(bl.dof, x))))
+
+
+APPLY = [
+    dict(dims=(3,), bounds=((0, "float"),)),
+    dict(dims=(3,), bounds=((0, "scalar"), (0, "scalar"), (0, "float"))),  # overlapping: the last one wins
+    dict(dims=(3,), bounds=((0, "array"), (0, "scalar"))),
+    dict(dims=(3,), bounds=((0, "scalar"), (0, "array2d"))),
+    dict(dims=(3,), bounds=((0, "bcast"), (0, "bcast-skip"))),
+    dict(dims=(2,), bounds=((0, "bcast-row"), (0, "array"))),
+    dict(dims=(2, 1), bounds=((0, "scalar"), (1, "scalar"))),
+    dict(dims=(2, 1), bounds=((1, "array"), (0, "bcast"), (1, "float"))),
+    dict(dims=(3, 1, 1), bounds=((0, "scalar"), (2, "scalar"))),  # third field: cumulative offset
+    dict(dims=(3, 1, 1), bounds=((2, "array"), (1, "scalar"), (0, "bcast-skip"), (2, "scalar")), tier="thorough"),
+    dict(dims=(1, 2, 3), bounds=((2, "bcast-skip"), (1, "bcast-row"), (0, "array"))),
+    dict(dims=(1, 3), bounds=((1, "array2d"), (0, "float")), tier="thorough"),
+]
+
+
+@contract("C08", "apply", configs=APPLY, engine="E3")
+def apply(vk, cfg):
+    """apply: ext0[k] = value of the last boundary containing dof0[k] (at the position of its unknown),
+    else the current field value; scalar, per-dof array and broadcast values; mixed containers"""
+    vk.real(DT.apply)
+    X.paired(vk, _apply, cfg)
